@@ -84,48 +84,74 @@ def _compile_obj(args):
 
 
 def build_engine(engine, flavor, pool=None):
-    """engine: dict(name, units=[(src, [defines])], libs=[...]). Returns binary path.
-    Objects are cached by a hash over the library headers, the harness sources
-    and the exact command line, so an edited header always recompiles."""
+    """engine: dict(name, units=[(src, [defines])] or [(src, [defines], "optional")], libs=[...]).
+    Returns the binary path. Objects are cached by a hash over the library
+    headers, the harness sources and the exact command line, so an edited header
+    always recompiles. An "optional" unit that does not compile is replaced by
+    its -DVK_STUB variant and listed in <binary>.failures.json (the monitor in
+    it could not be brought to execution; the caller decides what that means)."""
     comp, flags = FLAVORS[flavor]
     inc = os.path.join(REPO, "include")
     base = hashlib.sha256((tree_hash(inc) + harness_headers_hash() + comp + flags).encode()).hexdigest()
     os.makedirs(BUILD, exist_ok=True)
-    jobs = []
-    objs = []
-    for src, defs in engine["units"]:
+
+    def job(src, defs):
         sp = os.path.join(HARNESS, src)
         with open(sp, "rb") as fh:
             sh = hashlib.sha256(fh.read()).hexdigest()
         key = hashlib.sha256((base + sh + " ".join(defs)).encode()).hexdigest()[:24]
         obj = os.path.join(BUILD, "%s-%s-%s.o" % (os.path.splitext(src)[0], flavor, key))
         cmd = [comp] + flags.split() + ["-I" + inc, "-I" + HARNESS] + defs + ["-c", sp]
-        jobs.append((cmd, obj))
-        objs.append(obj)
-    link_key = hashlib.sha256(("".join(objs) + " ".join(engine.get("libs", []))).encode()).hexdigest()[:24]
-    binary = os.path.join(BUILD, "%s-%s-%s.bin" % (engine["name"], flavor, link_key))
+        return (cmd, obj)
+
+    units = [(u[0], u[1], len(u) > 2 and u[2] == "optional") for u in engine["units"]]
+    jobs = [job(src, defs) for src, defs, _ in units]
+    id_key = hashlib.sha256(("".join(o for _, o in jobs) + " ".join(engine.get("libs", []))).encode()).hexdigest()[:24]
+    binary = os.path.join(BUILD, "%s-%s-%s.bin" % (engine["name"], flavor, id_key))
     if os.path.exists(binary):
         return binary
     t0 = time.time()
     own = pool is None
     if own:
         pool = cf.ThreadPoolExecutor(NCPU)
+    failures = []
     try:
+        # optional units whose failure is already known are not recompiled
         results = list(pool.map(_compile_obj, jobs))
+        objs = []
+        for (src, defs, optional), (rc, out, obj) in zip(units, results):
+            if rc == 0:
+                objs.append(obj)
+            elif optional:
+                failures.append({"src": src, "defs": defs, "output": out[-5000:]})
+                cmd2, obj2 = job(src, defs + ["-DVK_STUB"])
+                rc2, out2, _ = _compile_obj((cmd2, obj2))
+                if rc2 != 0:
+                    raise Inconclusive("stub of %s does not compile:\n%s" % (src, out2[-4000:]))
+                objs.append(obj2)
+            else:
+                raise Inconclusive("compilation of %s failed:\n%s" % (obj, out[-6000:]))
     finally:
         if own:
             pool.shutdown()
-    for rc, out, obj in results:
-        if rc != 0:
-            raise Inconclusive("compilation of %s failed:\n%s" % (obj, out[-6000:]))
     tmp = binary + ".tmp%d" % os.getpid()
     cmd = [comp] + flags.split() + objs + engine.get("libs", []) + ["-o", tmp]
     p = subprocess.run(cmd, capture_output=True, text=True)
     if p.returncode != 0:
         raise Inconclusive("link of %s failed:\n%s" % (binary, (p.stdout + p.stderr)[-4000:]))
+    with open(binary + ".failures.json", "w") as fh:
+        json.dump(failures, fh)
     os.replace(tmp, binary)
     log("[build] %s/%s in %.1fs" % (engine["name"], flavor, time.time() - t0))
     return binary
+
+
+def build_failures(binary):
+    try:
+        with open(binary + ".failures.json") as fh:
+            return json.load(fh)
+    except Exception:
+        return []
 
 
 def try_compile(src, defs, flavor="o0"):
